@@ -302,11 +302,17 @@ def kernelOk (need : Option Nat) (ncpus : Int) : Bool :=
   | some k => decide ((k : Int) ≤ ncpus)
   | none => false
 
+/-- `if (ncpus > G)` (absent guard = never) -/
+def guardHit (g : Option Int) (n : Int) : Bool :=
+  match g with
+  | some g => decide (n > g)
+  | none => false
+
 def affLoop (cfg : ACfg) (need : Option Nat) : Nat → Int → AffOut
   | 0, _ => .fuelOut
   | fuel + 1, n =>
     if kernelOk need n then .ok n
-    else if (match cfg.guard with | some g => decide (n > g) | none => false) then .overflowError
+    else if guardHit cfg.guard n then .overflowError
     else if n * cfg.factor > INT_MAX ∨ n * cfg.factor < INT_MIN then .ub n
     else affLoop cfg need fuel (n * cfg.factor)
 
